@@ -166,6 +166,22 @@ def s1_latin3(tier):
     return out
 
 
+def s1_numeric(tier):
+    """level names that are not strings (the documentation allows any value): 0 and 200, False/True - falsy names included"""
+    out = []
+    B = basic('B', 2)
+    for lv in ([0, 200], [False, True], [0.0, 1.5]):
+        A = {'name': 'A', 'levels': [[lv[0], 1], [lv[1], 1]]}
+        for cr in (['A'], ['A', 'B'], ['B']):
+            for cs in ([], [{'c': 'AtMostKInARow', 'k': 1, 'factor': 'A', 'level': lv[0]}], [{'c': 'Pin', 'index': 0, 'factor': 'A', 'level': lv[0]}],
+                       [{'c': 'ExactlyK', 'k': 1, 'factor': 'A', 'level': lv[0]}], [{'c': 'AtLeastKInARow', 'k': 2, 'factor': 'A', 'level': lv[0]}],
+                       [{'c': 'MinimumTrials', 'k': 3}]):
+                out.append(spec([A, B], cross(['A', 'B'], cr, cs), 'S1n'))
+            if 'A' in cr:
+                out.append(spec([A, B], cross(['A', 'B'], cr, [{'c': 'Exclude', 'factor': 'A', 'level': lv[0]}], False), 'S1n'))
+    return out
+
+
 def s1_exclude(tier):
     """Exclude with rcc both ways; targets restricted per A6/A11."""
     out = []
@@ -264,7 +280,8 @@ def s2(tier):
         B = basic('B', 2, wB)
         fm0 = {'A': A, 'B': B}
         dm = [None, within('W', ['A', 'B'], fm0, same), window('TA', ['A'], fm0, 2, same, kind='transition', start=1),
-              within('W', ['A', 'B'], fm0, same, weights=[2, 1])]
+              within('W', ['A', 'B'], fm0, same, weights=[2, 1]), within('W', ['A', 'B'], fm0, same, weights=[1, 2]),
+              window('TA', ['A'], fm0, 2, same, kind='transition', start=1, weights=[1, 2])]
         for D in dm:
             factors = [A, B] + ([D] if D else [])
             fm = {f['name']: f for f in factors}
@@ -571,6 +588,11 @@ def s6(tier):
     for k in (5, 7, 8, 10):
         out.append(spec([O, C], {'op': 'nest', 'outer': cross(['O'], ['O']), 'inner': cross(['C'], ['C']),
                                  'constraints': [{'c': 'MinimumTrials', 'k': k}]}, 'S6'))
+    # MinimumTrials on the Nest together with another constraint (the trial count must not depend on the order of validation)
+    for other in ({'c': 'Pin', 'index': 0, 'factor': 'A', 'level': 'a0'}, {'c': 'AtLeastKInARow', 'k': 1, 'factor': 'A', 'level': 'a0'},
+                  {'c': 'AtMostKInARow', 'k': 2, 'factor': 'A', 'level': 'a0'}):
+        for cs in ([{'c': 'MinimumTrials', 'k': 5}, other], [other, {'c': 'MinimumTrials', 'k': 5}]):
+            out.append(spec([O, A], {'op': 'nest', 'outer': cross(['O'], ['O']), 'inner': cross(['A'], ['A']), 'constraints': cs}, 'S6'))
     for k in (4, 5):
         out.append(spec([O, C], {'op': 'nest', 'outer': cross(['O'], ['O']), 'inner': cross(['C'], ['C'], [{'c': 'MinimumTrials', 'k': k}]),
                                  'constraints': []}, 'S6'))
@@ -662,7 +684,7 @@ def s9(tier):
     return out
 
 
-STRATA = {'S9': s9, 'S1p': s1_pairs, 'S1xa': s1_exclude_a11, 'S2s': s2_small, 'S1L': s1_latin3, 'S1': s1, 'S1x': s1_exclude, 'S2': s2, 'S3': s3, 'S4': s4, 'S5': s5, 'S6': s6}
+STRATA = {'S1n': s1_numeric, 'S9': s9, 'S1p': s1_pairs, 'S1xa': s1_exclude_a11, 'S2s': s2_small, 'S1L': s1_latin3, 'S1': s1, 'S1x': s1_exclude, 'S2': s2, 'S3': s3, 'S4': s4, 'S5': s5, 'S6': s6}
 
 
 def shape_key(d):
